@@ -23,7 +23,7 @@ _BIN = {ast.Add: operator.add, ast.Sub: operator.sub, ast.Mult: operator.mul, as
 _CMP = {ast.Lt: operator.lt, ast.LtE: operator.le, ast.Gt: operator.gt, ast.GtE: operator.ge, ast.Eq: operator.eq, ast.NotEq: operator.ne,
         ast.In: lambda a, b: a in b, ast.NotIn: lambda a, b: a not in b, ast.Is: operator.is_, ast.IsNot: operator.is_not}
 _FUNCS = {'len': len, 'ord': ord, 'chr': chr, 'int': int, 'str': str, 'hex': hex, 'format': format, 'bool': bool, 'abs': abs, 'min': min, 'max': max, 'tuple': tuple,
-          'list': list, 'reversed': lambda x: list(reversed(x)), 'sorted': sorted, 'divmod': divmod, 'sum': sum, 'repr': repr}
+          'list': list, 'frozenset': lambda x=(): tuple(dict.fromkeys(x)), 'set': lambda x=(): list(dict.fromkeys(x)), 'reversed': lambda x: list(reversed(x)), 'sorted': sorted, 'divmod': divmod, 'sum': sum, 'repr': repr}
 _OK_TYPES = (str, int, bool, tuple, list, dict, type(None))
 
 
@@ -105,7 +105,15 @@ def fold(e, env=None, texts=None, resolver=None):
             except TypeError as ex:
                 raise Unfoldable('%s: %s' % (norm(x), ex))
         if isinstance(x, (ast.Tuple, ast.List)):
-            vals = [ev(v) for v in x.elts]
+            vals = []
+            for v in x.elts:
+                if isinstance(v, ast.Starred):
+                    inner = ev(v.value)
+                    if not isinstance(inner, (list, tuple)) or is_sym(inner):
+                        raise Unfoldable(norm(x))
+                    vals.extend(inner)
+                else:
+                    vals.append(ev(v))
             return tuple(vals) if isinstance(x, ast.Tuple) else vals
         if isinstance(x, ast.BinOp) and type(x.op) in _BIN:
             a, b = ev(x.left), ev(x.right)
